@@ -34,6 +34,8 @@ def scriptpubkey(data: bytes) -> bytes:
     elif bits.base58.is_base58check(data):
         decoded = bits.base58.base58check_decode(data)
         version, payload = decoded[0:1], decoded[1:]
+        if len(payload) != 20:
+            raise ValueError("invalid base58check address payload length")
         if version in [b"\x00", b"\x6f"]:
             # addr_type = "p2pkh"
             script_pubkey = p2pkh_script_pubkey(payload)
